@@ -24,6 +24,20 @@ func extractWhereAnalyticCalls(condition string) (string, []types.WhereAnalyticC
 	callIdx := 0
 	for i < len(condition) {
 		ch := condition[i]
+		if ch == '\'' || ch == '"' || ch == '`' {
+			// A string literal or quoted identifier is data, never a call: copy it through to the
+			// next occurrence of its opening quote (the lexer's token boundary).
+			end := i + 1
+			for end < len(condition) && condition[end] != ch {
+				end++
+			}
+			if end < len(condition) {
+				end++
+			}
+			out.WriteString(condition[i:end])
+			i = end
+			continue
+		}
 		if isLetter(ch) {
 			start := i
 			for i < len(condition) && (isLetter(condition[i]) || isDigit(condition[i])) {
